@@ -62,7 +62,7 @@ impl<W: Write + io::Seek> GenericZipWriter<W> {
 //@use gzw_unwrap nobody
 }
 impl ZipWriterStats {
-//@use zipwriterstats_update nobody
+//@use zipwriterstats_update nobody optional
 }
 // contract-only, weaker restatement of clause `io_step` + precondition of zc_writer_finish (proved in unit U10)
 impl<W: Write> zipcrypto::ZipCryptoWriter<W> {
